@@ -774,6 +774,12 @@ func (a *analysis) oracleC03() verdict {
 					return a.fv("last-onabort", "aborted bar %d lacks its on-abort decorations in the last frame: %q", bi, g.Main)
 				}
 			}
+			if spec.OnDone {
+				hasC, hasA := strings.Contains(g.RawMain, metaDone("(m)")), strings.Contains(g.RawMain, metaAbrt("(m)"))
+				if pw.Compl && (!hasC || hasA) || pw.Abrt && (!hasA || hasC) {
+					return a.fv("last-meta", "bar %d (%s) in the last frame: on-complete meta applied=%v, on-abort meta applied=%v: %q", bi, flags(pw), hasC, hasA, g.RawMain)
+				}
+			}
 			if m := a.wrapTextMsg(bi, g); m != "" {
 				return a.fv("last-wrapper-text", "%s", m)
 			}
